@@ -82,7 +82,8 @@ TABLE.update({(18, 2): ('AA-2', 1), (18, 13): ('AA-2', 1)})
 TABLE.update({(19, 2): ('AA-1', 13), (19, 3): ('AA-8', 13), (19, 13): ('AA-7', 13)})
 TABLE.update(_fill(19, ('AA-8', 13), range(5, 13)))
 
-assert len(TABLE) == 123, len(TABLE)
+if len(TABLE) != 123:
+    raise RuntimeError('model table has %d cells' % len(TABLE))
 
 
 def _a(wire=None, ind=None, close=False, artim=None, connect=False):
